@@ -1267,6 +1267,8 @@ class Walker:
                 return [(st, ("newb", "dict", site, ()))]
             if name == "wraps":
                 return [(st, ("g", "identity_decorator"))]
+            if name == "divmod" and k == "g" and len(args) == 2 and not kwargs:
+                return [(st, ("tup", (self.mk_bin("//", args[0], args[1]), self.mk_bin("%", args[0], args[1]))))]
             v = ("call", fn, tuple(args), tuple(sorted(kwargs.items())))
             v = _norm_node(v) or v
             self.emit(st, "call", node, name=name, target=None, recv=None, args=args, kwargs=kwargs, inlined=False,
